@@ -8,7 +8,9 @@
 (*             cut at NUL as the HTTP front end does),                     *)
 (*       st, kind : "404" | "redirect" | "file" | "list" | "other",        *)
 (*       m   : marker found in the body (file),                            *)
-(*       rows, hrefs, h1 : anchor texts / hrefs / heading of a listing}    *)
+(*       head, tb : the listing page as returned, cut at "<tbody>"; tb is  *)
+(*             logged once per Reset block and referred to by bo = offset  *)
+(*             (from the Reset line) of the line that carries it}          *)
 (* TraceSpec accepts a Get line iff the reply is one the property allows   *)
 (* (Inside / ListingRules of FileSrv.tla).  WhySpec classifies rejected    *)
 (* lines; DriftSpec compares the reply predicted by the mechanism model    *)
@@ -16,8 +18,9 @@
 (***************************************************************************)
 EXTENDS FileSrv, TraceBase
 
-VARIABLES l, rl, ins      \* cursor; line of the Reset in force; per-root "inside" sets computed at Reset
-tvars == <<l, rl, ins>>
+VARIABLES l, rl, ins,     \* cursor; line of the Reset in force; per-root "inside" sets computed at Reset
+          lst             \* verdicts on the listing tables seen in this block: offset -> [ok, sub, eq]
+tvars == <<l, rl, ins, lst>>
 
 Ev == TraceLog[l]
 Is(name) == l <= NLines /\ Ev.e = name /\ l' = l + 1
@@ -27,42 +30,54 @@ fs  == TraceLog[rl].fs
 InsOf(f, c) == [rootM |-> InsideMarkers(f, c.root, c.check), rootD |-> InsideDirs(f, c.root, c.check),
                 alM |-> [k \in DOMAIN c.aliases |-> InsideMarkers(f, c.aliases[k].target, c.check)],
                 alD |-> [k \in DOMAIN c.aliases |-> InsideDirs(f, c.aliases[k].target, c.check)]]
-TReset == Is("Reset") /\ rl' = l /\ ins' = InsOf(Ev.fs, Ev.c)
+TReset == Is("Reset") /\ rl' = l /\ ins' = InsOf(Ev.fs, Ev.c) /\ lst' = <<>>
 
 Sel(b) == { k \in DOMAIN cfg.aliases : IsPrefix(cfg.aliases[k].url, Resolved(b)) }
 OkMarkers(b) == ins.rootM \cup UNION { ins.alM[k] : k \in Sel(b) }
 OkDirs(b)    == ins.rootD \cup UNION { ins.alD[k] : k \in Sel(b) }
 AnyMarkers   == ins.rootM \cup UNION { ins.alM[k] : k \in DOMAIN cfg.aliases }
 
-ListOK(b) ==
+\* a listing table, read as a browser reads it: template only? which directories can it be a listing of?
+AllDirs == { <<>> } \cup { fs[k].p : k \in { j \in DOMAIN fs : fs[j].k = "dir" } }
+Judge(tb) == LET pg == ReadPage(tb, 1, NoPage) IN
+             [ok  |-> pg.ok,
+              sub |-> { d \in AllDirs : AnchorsOf(fs, d, pg.anchors) },             \* property: anchors name visible children
+              eq  |-> { d \in AllDirs : RowsOf(pg.anchors) = ExpectedRows(fs, d) }] \* mechanism: exactly the expected rows
+NoVerdict == [ok |-> FALSE, sub |-> {}, eq |-> {}]
+Verdict == IF Ev.kind # "list" THEN NoVerdict
+           ELSE IF Has(Ev, "tb") THEN Judge(Ev.tb)
+           ELSE IF Ev.bo \in DOMAIN lst THEN lst[Ev.bo] ELSE NoVerdict
+HeadOK == LET pg == ReadPage(Ev.head, 1, NoPage) IN pg.ok /\ pg.anchors = <<>>
+
+ListOK(b, v) ==
     /\ cfg.listing
-    /\ NoRawMarkup(Ev.h1)
-    /\ \A i \in DOMAIN Ev.hrefs : \A j \in DOMAIN Ev.hrefs[i] : Ev.hrefs[i][j] \notin {39, 60, 62, 34}
-    /\ \E d \in OkDirs(b) : \A i \in DOMAIN Ev.rows : RowOK(fs, d, Ev.rows[i])
+    /\ HeadOK /\ v.ok
+    /\ v.sub \cap OkDirs(b) # {}
 
 Accept ==
     CASE Ev.kind = "404" -> TRUE
       [] Ev.kind = "redirect" -> TRUE
       [] Ev.kind = "file" -> Ev.m \in OkMarkers(Ev.p)
-      [] Ev.kind = "list" -> ListOK(Ev.p)
+      [] Ev.kind = "list" -> ListOK(Ev.p, Verdict)
       [] OTHER -> FALSE
 
-TGet == Is("Get") /\ Accept /\ UNCHANGED <<rl, ins>>
-TraceInit == l = 1 /\ rl = 0 /\ ins = <<>>
+Remember == lst' = IF Ev.kind = "list" /\ Has(Ev, "tb") THEN (Ev.bo :> Judge(Ev.tb)) @@ lst ELSE lst
+TGet == Is("Get") /\ Accept /\ Remember /\ UNCHANGED <<rl, ins>>
+TraceInit == l = 1 /\ rl = 0 /\ ins = <<>> /\ lst = <<>>
 TraceNext == TReset \/ TGet
 TraceSpec == TraceInit /\ [][TraceNext]_tvars
 
 (* ---- diagnosis: 1 file from outside every root, 2 file of a root/alias the path does not select, *)
-(* 3 listing although disabled, 4 listing of a directory that is not inside, 5 listing shows a      *)
-(* dot-file / unescaped name / foreign name, 6 unrecognised 200 reply                               *)
+(* 3 listing although disabled, 4 listing of a directory that is not inside, 5 listing page is not  *)
+(* the template with one well-formed anchor per visible child (dot-file shown, name not escaped,    *)
+(* attribute / tag injected by a name, href and text disagree), 6 unrecognised 200 reply            *)
 Why ==
     CASE Ev.kind = "file" -> IF Ev.m \in AnyMarkers THEN 2 ELSE 1
       [] Ev.kind = "list" -> IF ~cfg.listing THEN 3
-                             ELSE IF \E d \in OkDirs(Ev.p) : \A i \in DOMAIN Ev.rows : \E k \in Children(fs, d) :
-                                        Ev.rows[i] \in { EscName(Last(fs[k].p)), EscName(Last(fs[k].p)) \o <<47>> } THEN 5
+                             ELSE IF ~HeadOK \/ ~Verdict.ok \/ Verdict.sub = {} THEN 5
                              ELSE 4
       [] OTHER -> 6
-WGet == Is("Get") /\ UNCHANGED <<rl, ins>> /\ (Accept \/ PrintT(<<"WHY", l, Why>>))
+WGet == Is("Get") /\ Remember /\ UNCHANGED <<rl, ins>> /\ (Accept \/ PrintT(<<"WHY", l, Why>>))
 WhySpec == TraceInit /\ [][TReset \/ WGet]_tvars
 
 (* ---- drift: the mechanism model's prediction ---- *)
@@ -80,13 +95,11 @@ Decode(raw) ==                     \* util::urldecode + C-string cut, as the HTT
     IN D[1]
 Report(what) == PrintT(<<"DRIFT", l, what>>)
 DGet ==
-    /\ Is("Get") /\ UNCHANGED <<rl, ins>>
+    /\ Is("Get") /\ Remember /\ UNCHANGED <<rl, ins>>
     /\ LET r == Serve(fs, cfg, Ev.p) IN
        /\ (Decode(Ev.raw) = Ev.p \/ Report("decode"))
        /\ (r.kind = Ev.kind \/ Report("kind"))
        /\ (~(r.kind = "file" /\ Ev.kind = "file") \/ r.m = Ev.m \/ Report("file"))
-       /\ (~(r.kind = "list" /\ Ev.kind = "list")
-             \/ (\A i \in DOMAIN Ev.rows : \E k \in Children(fs, r.d) : Ev.rows[i] \in { EscName(Last(fs[k].p)), EscName(Last(fs[k].p)) \o <<47>> })
-             \/ Report("listing"))
+       /\ (~(r.kind = "list" /\ Ev.kind = "list") \/ r.d \in Verdict.eq \/ Report("listing"))
 DriftSpec == TraceInit /\ [][TReset \/ DGet]_tvars
 =============================================================================
